@@ -244,3 +244,13 @@ fn read_and_validate_local_modular_header(
 
     Ok((header, ma_ctx))
 }
+
+/// Verification hooks (`--cfg jxl_oxide_verif`): add-only re-exports of crate-private kernels so
+/// that the out-of-tree harness crate can execute them symbolically.
+#[cfg(jxl_oxide_verif)]
+pub mod verif {
+    pub use crate::predictor::verif as predictor_fns;
+    pub use crate::predictor::{Predictor, PredictorState, Properties, WpHeader};
+    pub use crate::sample::Sealed;
+    pub use crate::transform::verif::*;
+}
